@@ -442,9 +442,12 @@ class FunctionReference:
         assert isinstance(qualified_name, str), "Qualified name must be a str"
 
         # Parse information from the string
+        # Only the version may contain ':' and '#': everything after the first '#' that follows
+        # the function name belongs to it
         match = re.match(
-            r"((?P<cluster>.*)::)?(?P<module>.*):(?P<function>[^#]*)(#(?P<version>.*))?",
+            r"((?P<cluster>[^:#]*)::)?(?P<module>[^:#]*):(?P<function>[^:#]*)(#(?P<version>.*))?$",
             qualified_name,
+            re.DOTALL,
         )
         if not match:
             raise ValueError(
